@@ -382,7 +382,7 @@ func (s *Server) Format(ctx context.Context, params *protocol.DocumentFormatting
 		return nil, nil
 	}
 
-	journal, _ := parser.Parse(doc)
+	journal, parseErrs := parser.Parse(doc)
 
 	var commodityFormats map[string]formatter.NumberFormat
 	if s.workspace != nil {
@@ -394,6 +394,12 @@ func (s *Server) Format(ctx context.Context, params *protocol.DocumentFormatting
 		IndentSize:         settings.Formatting.IndentSize,
 		AlignAmounts:       settings.Formatting.AlignAmounts,
 		MinAlignmentColumn: settings.Formatting.MinAlignmentColumn,
+	}
+	if len(parseErrs) > 0 {
+		opts.SkipLines = make(map[int]bool, len(parseErrs))
+		for _, e := range parseErrs {
+			opts.SkipLines[e.Pos.Line-1] = true
+		}
 	}
 
 	return formatter.FormatDocumentWithOptions(journal, doc, commodityFormats, opts), nil
